@@ -99,6 +99,8 @@ def run(ctx):
     storms[0]["stalled"] = 2
     for sp in storms[1:]:
         sp["failing"] = ctx.rng.range(1, 3)
+    for sp in storms:
+        sp["checkers"] = 2
     spath = os.path.join(ctx.workdir, "storm.cases")
     open(spath, "w").write("\n".join("storm " + json.dumps(sp).encode().hex() for sp in storms) + "\n")
     rc = ctx.run_harness(exe, spath, os.path.join(ctx.workdir, "storm.out"), timeout=300)
@@ -115,6 +117,9 @@ def run(ctx):
         if o.get("stalled"):
             ctx.violation("C11:hub-stalls", f"no hub operation completed for {sp['stall_ms']} ms while relays, joins, leaves and session closes ran concurrently; goroutines blocked on the hub lock in {sorted(set(o.get('blocked_in') or []))[:6]}",
                           {"storm": sp, "result": o})
+        if o.get("lost_registrations"):
+            ctx.violation("C11:registration-lost", f"{o['lost_registrations']} times a peer for which Add had returned was not listed or not routable although it had not left "
+                          f"(a session whose map keeps being garbage-collected by its last leaver): {o.get('lost_registration_example')}", {"storm": sp, "result": o})
         if o.get("panics"):
             ctx.violation("C11:panic", f"panic in a hub operation during a free-running storm: {o['panics'][:2]}", {"storm": sp, "result": o})
     stats["storm_ops"] = storm_ops
